@@ -35,9 +35,9 @@ func RandomLexInput(r *gen.Rng, maxParts int) []byte {
 func runC03(c *core.Ctx) {
 	const thm = "C03 lex_* theorems (props/C03.v); model op lex = Lexer.dump_lex"
 	c.ReplayKnown()
-	maxLen, maxBlock, nRandom := 4, 6, 20000
+	maxLen, maxBlock, nRandom := 5, 7, 60000
 	if !c.Quick {
-		maxLen, maxBlock, nRandom = 5, 8, 400000
+		maxLen, maxBlock, nRandom = 6, 9, 1000000
 	}
 	for n := 0; n <= maxLen; n++ {
 		total := ipow(len(LexAlphabet), n)
